@@ -98,6 +98,51 @@ E["C15"] = dict(
     note="Overlong forms and 4-byte sequences are accepted/truncated by the C decoder (table's lower column unused) and are modelled as they are; handler errors, the "
          "flush retry loop and the byte-string value paths in val.c/run.c/fmt are tied by CLI runs only.",
     tech="Lean 4 proof (round trips, bounds, chunk-independence by induction over chunk lists) over a table regenerated from the source + property oracle + differential correspondence")
+E["C07"] = dict(
+    text="Lean 4 theorems (Props/C07.lean, 14) about an executable model of val.c's reference counts and generational cycle collector (heap of containers "
+         "with refs, gc_refs incl. the GCH_MOVED / GCH_UNREACHABLE sentinels as encoded, generation, children; refdown cascade incl. the element "
+         "freeers' sentinel test; collect = merge, trace phases 1 and 2, move reachables, free unreachables, promote, pressure/threshold; teardown), "
+         "for every op history: the ledger refs = holders + in-edges, no dangling child, nothing reachable is ever freed, whatever is freed is unreachable, "
+         "acyclic garbage is freed at once, after a full collection everything live is reachable, the heap is empty after teardown, no stale sentinel "
+         "between operations; plus legacy_breaks_ledger exhibiting the repaired defect on the unrepaired model. Tied to the code by an in-process harness "
+         "dumping v_refs, gc_refs, generation and element lists after every op with a counting allocator, and by generated hawk programs under "
+         "ASan+LeakSanitizer; python shadow ledger/reachability oracle first, then diff with the Lean driver.",
+    note="Not modelled: leaf values, the str/mbs/ref recycling caches and int/flt chunk lists (ASan only), order inside generation lists, allocation failure (C10).",
+    tech="Lean 4 proof (ledger + reachability invariants by induction over heap-operation histories incl. the collector) + property oracle + differential correspondence")
+E["C10"] = dict(
+    text="PARTIAL by nature (the thousands of individual `if (!p)` branches are enumerated, not proved). Lean 4 theorems (Props/C10.lean, 20): a generic theorem "
+         "unwind_balanced (for ANY acquire/goto-label/release table passing a decidable well-formedness check, under every failure pattern released = acquired, no "
+         "duplicates; success owns everything; no refusal is swallowed) instantiated by `decide` on 14 constructor tables REGENERATED from the source on every run "
+         "(extract/unwind.py: ecs_init/open, htb/arr/rbt open, init_token, hawk_init, hawk_open, hawk_openstdwithmmgr, init_rtx, hawk_rtx_open; fails closed); "
+         "gc_calloc's collect-and-retry is bounded and ends in a block or ENOMEM; the ecs grow-or-fail logic is atomic under refusal; arr insert is atomic (from C19). "
+         "Fault enumeration harness: counting/injecting allocator, fail-exactly-k and fail-from-k for every request index of an 18-program corpus through the whole "
+         "open/parse/run/close life cycle (ENOMEM or identical output, no sanitizer report, zero live blocks, no foreign free), `hawk -m N` sweep; outcome per "
+         "constructor phase compared with the model.",
+    note="Trusted: the translator's ALLOC/RELEASE/INERT name lists (printed in the evidence); HAWK_TOLERANT switched off for the enumeration (a failing print returns -1 by design with it on). "
+         "Three recorded findings (EOPEN instead of ENOMEM from sio open wrappers; arr insert frees the caller's value when growth fails; setretval(make*val()) call sites).",
+    tech="Lean 4 proof over unwind tables regenerated from the source (translator) + models of the retry/grow logic; fault enumeration supports, does not replace, the theorems")
+E["C14"] = dict(
+    text="PARTIAL (frames, not bytes; residual unguarded cycles are recorded findings). Lean 4 theorems (Props/C14.lean, 26): a generic theorem that in a finite call graph whose "
+         "unguarded edges are acyclic every call stack consistent with the depth counters has length <= (sum of limits + 1)*|V|; its converse (a closed walk of unguarded edges "
+         "gives unbounded stacks); the instance for the call graph REGENERATED from lib/*.c and bin/hawk.c on every run (extract/callgraph.py via clang AST: 306 nodes on cycles, "
+         "683 edges, indirect calls resolved through tables/prototypes, guard idiom recognised, fails closed) checked by `decide +kernel` on a topological-numbering certificate; "
+         "hawk_stack_bounded_partial for stacks avoiding the listed residual cycles, and residual_groups_known which breaks when a NEW unguarded cycle appears; CLI/library "
+         "default limits positive and actually read; closed-form counter arithmetic for 21 nesting shape families with reject_iff_exceeds / within_limit_unaffected. "
+         "Harness: the real bin/hawk.c with limit overrides, every (family, depth up to 10^6, limit configuration) under a fixed ulimit -s, outcome class compared with the model; "
+         "any SIGSEGV outside the recorded findings is a violation.",
+    note="Trusted: the extractor incl. 13 assumed-cut edges listed with reasons in the evidence; native frame sizes are not modelled. 13 recorded findings (unguarded statement/destructor/deparser cycles, "
+         "unread rex depth options, quadratic regex memory).",
+    tech="Lean 4 proof over a call graph regenerated from the source (translator, decide +kernel certificate) + depth-counter model; differential classification of real runs")
+E["C18"] = dict(
+    text="PARTIAL (sed.c modelled at command granularity; script-text compiler not modelled). Lean 4 theorems (Props/C18.lean, 42) about a reference sed executor transcribed from "
+         "sed.c's exec loop (cycle structure, match_address range machine, n/N/D end-of-input rules, a/i/c queues, q, y, l, branching with fuel, do_subst generic in the matcher): "
+         "range_spec (the a1_matched machine = the declarative POSIX range function for every address kind and line sequence) and its end-to-end form, subst_occurrence (N-th / all "
+         "matches over the leftmost non-overlapping sequence for every matcher), the t-flag law, empty-regex reuse, hold-space algebra, frame lemmas, forward scripts never run out "
+         "of fuel. Three-way correspondence: hawk-sed vs the Lean model vs GNU `sed --posix` on generated scripts x inputs (with/without trailing newline, multibyte); "
+         "hawk-sed != GNU sed where the model agrees with GNU = violation; model != GNU = model bug; byte-mutated scripts under ASan for the safety half.",
+    note="Trusted: GNU sed 4.9 --posix as reference; the regex engine is a parameter (driver carries a small BRE matcher for the generator's pool). Not modelled: r/R/W/Q/z, k flag, I modifier. "
+         "One recorded finding (N at end of input prints the pattern space, GNU default behaviour).",
+    tech="Lean 4 proof about a reference executor (range automaton = spec, substitution law, hold-space algebra) + three-way differential correspondence with GNU sed")
 
 claimed = sorted(E)
 checks = []
